@@ -642,8 +642,9 @@ func NewConfig(configFile string) (*Config, error) { // nolint: gocyclo
 	}
 	parseTelemetryConfig(config, v)
 
-	// If SegmentMaxAge is not set, default it to the retention time.
-	if config.Streams.SegmentMaxAge == 0 {
+	// If SegmentMaxAge is not set, default it to the retention time. An
+	// explicit 0 is kept: it means segments are only rolled by size.
+	if !v.IsSet(configStreamsSegmentMaxAge) {
 		config.Streams.SegmentMaxAge = config.Streams.RetentionMaxAge
 	}
 
